@@ -162,7 +162,7 @@ theorem tp_d1_is_derivative (pi : ℝ) (tp : TP ℝ) (h : TPWF tp) :
     have := r_d1_is_derivative t h
     simpa [TP.setX, TP.getOriginal, TP.d1, TP.x, RT.at] using this
   | i t =>
-    have := interval_d1_is_derivative_hyper pi t h.1 h.2.1 h.2.2
+    have := interval_d1_is_derivative_hyper pi t h.1 h.2.1.ne' h.2.2
     simpa [TP.setX, TP.getOriginal, TP.d1, TP.x, IT.at] using this
   | p x0 =>
     have h0 : HasDerivAt (fun x : ℝ => x) 1 x0 := hasDerivAt_id x0
@@ -178,10 +178,40 @@ theorem tp_d2_is_derivative (pi : ℝ) (tp : TP ℝ) (h : TPWF tp)
     have := r_d2_is_derivative t h (hx t rfl)
     simpa [TP.setX, TP.d1, TP.d2, TP.x, RT.at] using this
   | i t =>
-    have := interval_d2_is_derivative pi t h.2.1 (by simp [h.1])
+    have := interval_d2_is_derivative pi t h.2.1.ne' (by simp [h.1])
     simpa [TP.setX, TP.d1, TP.d2, TP.x, IT.at] using this
   | p x0 =>
     simpa [TP.setX, TP.d1, TP.d2, TP.x] using hasDerivAt_const x0 (1 : ℝ)
+
+/-- every transformed parameter `init_` can build is a strictly monotone change of variable:
+increasing, except for `]-inf,b[` / `]-inf,b]` which use the (decreasing) mirror image -/
+theorem tp_strict_mono (pi : ℝ) (tp : TP ℝ) (h : TPWF tp) :
+    (∀ t, tp = .r t → t.positive = false → StrictAnti (fun x => (tp.setX x).getOriginal pi)) ∧
+    ((∀ t, tp = .r t → t.positive = true) → StrictMono (fun x => (tp.setX x).getOriginal pi)) := by
+  cases tp with
+  | r t =>
+    have hm := r_strict_mono t h
+    have e : (fun x => ((TP.r t).setX x).getOriginal pi) = fun x => (t.at x).getOriginal := by
+      funext x; simp [TP.setX, TP.getOriginal, RT.at]
+    rw [e]
+    constructor
+    · intro t' ht' hp
+      injection ht' with ht'; subst ht'
+      simpa [hp] using hm
+    · intro hp
+      have := hp t rfl
+      simpa [this] using hm
+  | i t =>
+    have hm := interval_strict_mono_hyper pi t h.1 h.2.1 h.2.2
+    have e : (fun x => ((TP.i t).setX x).getOriginal pi) = fun x => IT.getOriginal pi (t.at x) := by
+      funext x; simp [TP.setX, TP.getOriginal, IT.at]
+    rw [e]
+    exact ⟨fun t' ht' => (by cases ht'), fun _ => hm⟩
+  | p x0 =>
+    refine ⟨fun t' ht' => (by cases ht'), fun _ => ?_⟩
+    have e : (fun x => ((TP.p x0 : TP ℝ).setX x).getOriginal pi) = fun x => x := by
+      funext x; simp [TP.setX, TP.getOriginal]
+    rw [e]; exact strictMono_id
 
 /-- Chain rule, first order.  `w` is a wrapper whose slot `i` is `s`; the wrapped function `f` has
 partial derivative `df p i` with respect to its `i`-th parameter at the back-transformed point.
